@@ -49,7 +49,8 @@ type person struct {
 	Idx   int   // which object this is
 }
 
-// workloadLimit: a workload takes seconds; one that has not finished after
+// workloadLimit (no longer a limit for a whole workload, see the wait in
+// runWorkload): a workload takes seconds; one that has not finished after
 // this long is blocked, not slow.
 const workloadLimit = 240 * time.Second
 
@@ -252,6 +253,7 @@ func runWorkload(w *Workload) error {
 	}
 	var wg sync.WaitGroup
 	errs := make(chan error, w.Sharers+len(w.Own)+1)
+	var progress int64 // calls that have come back
 	start := make(chan struct{})
 
 	// sequential reference verdicts for the shared script
@@ -311,6 +313,7 @@ func runWorkload(w *Workload) error {
 				for k := 0; k < w.Calls; k++ {
 					i := (g*31 + k*7) % 60
 					got, err := shared.Run(objectFor(i))
+					atomic.AddInt64(&progress, 1)
 					if (err != nil) != fails[i] {
 						errs <- fmt.Errorf("shared evaluator: object %d: Run returned error %v concurrently, but failed=%v sequentially", i, err, fails[i])
 						return
@@ -367,6 +370,7 @@ func runWorkload(w *Workload) error {
 						p = withPattern(objectFor(g+k), fmt.Sprintf("^u[0-9]@|ww%d_%d_%dzz", wid, round, k))
 					}
 					a, err := e.Execute(p)
+					atomic.AddInt64(&progress, 1)
 					if err != nil {
 						if _, berr := seq.Execute(p); berr != nil && k%5 == 4 {
 							continue // a record with an unconvertible field may fail the run: both do
@@ -386,12 +390,29 @@ func runWorkload(w *Workload) error {
 	close(start)
 	finished := make(chan struct{})
 	go func() { wg.Wait(); close(finished) }()
-	select {
-	case <-finished:
-	case <-time.After(workloadLimit):
-		// calls that never come back: a lock that is never released, a wait
-		// for something that cannot happen (the goroutines are left behind)
-		return fmt.Errorf("the workload had not finished after %v: calls of Run/Execute/Prepare are blocked", workloadLimit)
+	// calls that never come back: a lock that is never released, a wait for
+	// something that cannot happen (the goroutines are left behind). "Never" is
+	// judged by progress, not by the clock alone: on a busy machine, under the
+	// race detector, a large workload takes minutes while every single call
+	// still comes back; blocked means that no call has come back for a long
+	// time (false alarm 32 of the thorough tier).
+	last := atomic.LoadInt64(&progress)
+	idle := 0
+waiting:
+	for {
+		select {
+		case <-finished:
+			break waiting
+		case <-time.After(20 * time.Second):
+			if now := atomic.LoadInt64(&progress); now != last {
+				last, idle = now, 0
+				continue
+			}
+			idle++
+			if idle >= 6 {
+				return fmt.Errorf("no call of Run/Execute/Prepare has come back for two minutes (%d calls came back before that): calls are blocked", last)
+			}
+		}
 	}
 	close(errs)
 	for err := range errs {
